@@ -221,13 +221,10 @@ theorem np_saveNFT (a tk : Bytes) (t : Token) (rae : Bool) (c : Ctx) (hv : t.val
   apply NP.bind_deref hv; intro v _
   split <;> np
 
-theorem np_checkSameHash (cur t : Token) (c : Ctx) (h : cur.md.isSome = true → t.md.isSome = true) :
-    NP (checkSameHash cur t) c := by
+theorem np_checkSameHash (cur t : Token) (c : Ctx) : NP (checkSameHash cur t) c := by
   unfold checkSameHash
   split
-  · rename_i cm hcm
-    apply NP.bind_deref (h (by simp [hcm])); intro _ _
-    np
+  · split <;> np
   · np
 
 end Esdt
